@@ -1,20 +1,1871 @@
-//! C12 — not implemented yet (stub).
+//! C12 — value tagging is lossless, unambiguous and configuration-independent.
+//!
+//! Streams (see `rule()`):
+//!   i32, i32-near        round trip of int32 through the public `JsValue` API (quick: every 2^8-th + neighbourhoods,
+//!                        thorough: all 2^32, split into 65 536 index chunks)
+//!   f64-structured       sign x 2048 exponents x 16 tag-nibble values x 64 boundary mantissas, boundary values,
+//!                        the whole quiet-NaN space top-16 x pointer-like low bits (exhaustive enumeration in both tiers)
+//!   f64-random           tape-chosen bit patterns (uniform + danger-zone biased)
+//!   heap                 booleans/null/undefined + strings/symbols/bigints/objects created in bulk; identity, refcounts,
+//!                        GC survival, and NaN patterns crafted from the *live* tagged pointers
+//!   script               JS programs manufacturing f64 bit patterns through typed arrays / DataView, compared with V8
+//!   script-f16           all 65 536 binary16 patterns through Float16Array/DataView.getFloat16 against a Rust model
+//!   two-build            nan-boxed build vs `--features jsvalue-enum` build of this same crate
+//!
+//! Two-build design: the second binary lives in `$BV_ROOT/harness/target-enum/debug/bv`. A `two-build` case evaluates a
+//! list of *items* (API lines such as `f64-block sign=0 exp=0x7ff`, heap op lists, JS programs) in this process, writes
+//! the same items into a replay file for the hidden stream `emit`, runs `<other> replay C12 <file>` with
+//! `BV_C12_EMIT=<out>` (the other build's `run_rendered("emit")` evaluates the items and writes its outputs to <out>),
+//! and compares output by output. The thorough tier (re)builds the second binary with cargo from `streams()` of the
+//! parent `check` process (there is no other parent-side hook; main.rs must not be edited); the quick tier only uses
+//! a second binary that already exists and is not older than the sources. Unavailable => cases are skipped with the
+//! reason (never a violation).
 
 use crate::driver::{CaseOut, Env, Prop, Stream, Tier};
+use crate::genp::prog::{Opts, generate};
+use crate::oracle::{node_script, verif_root};
+use crate::run::{RunCfg, run};
+use crate::tape::Tape;
+use boa_engine::object::builtins::JsArray;
+use boa_engine::value::{Numeric, Type};
+use boa_engine::{Context, JsBigInt, JsObject, JsString, JsSymbol, JsValue, JsVariant, js_string};
+use std::hash::{Hash, Hasher};
+use std::path::PathBuf;
+use std::sync::OnceLock;
 
 pub struct C12;
+
+// ---------------------------------------------------------------------------------------------------------------
+// exclusions for on-tree findings (true = the generator avoids the construct); none needed so far
+/// C12-a (= F14 of DESIGN.md): Int8/Uint8/Int16/Uint16 typed-array element conversion saturates instead of wrapping.
+const EXCLUDE_SMALL_INT_TA_CONVERSION: bool = true;
+/// C12-b: String/Array.prototype.at(x) negates ToIntegerOrInfinity(x) = i64::MIN for x <= -2^63 (overflow panic).
+const EXCLUDE_AT_BELOW_I64_MIN: bool = true;
+
+// ---------------------------------------------------------------------------------------------------------------
+// the abstract value and its observation through the public API
+
+const QNAN: u64 = 0x7FF8_0000_0000_0000;
+const LOW48: u64 = 0x0000_FFFF_FFFF_FFFF;
+
+/// (signature, detail)
+type Fail = (String, String);
+
+fn norm(bits: u64) -> u64 {
+    if f64::from_bits(bits).is_nan() { QNAN } else { bits }
+}
+
+#[derive(Clone, Copy, Debug, PartialEq, Eq)]
+enum Abs {
+    Undefined,
+    Null,
+    Bool(bool),
+    /// number, by bits; every NaN is QNAN here
+    Num(u64),
+    Str,
+    Sym,
+    Big,
+    Obj,
+}
+
+const PRED_NAMES: [&str; 8] = ["is_undefined", "is_null", "is_boolean", "is_number", "is_string", "is_symbol", "is_bigint", "is_object"];
+
+fn preds(v: &JsValue) -> u32 {
+    u32::from(v.is_undefined())
+        | u32::from(v.is_null()) << 1
+        | u32::from(v.is_boolean()) << 2
+        | u32::from(v.is_number()) << 3
+        | u32::from(v.is_string()) << 4
+        | u32::from(v.is_symbol()) << 5
+        | u32::from(v.is_bigint()) << 6
+        | u32::from(v.is_object()) << 7
+}
+
+fn pred_list(m: u32) -> String {
+    let l: Vec<&str> = (0..8).filter(|k| m & (1 << k) != 0).map(|k| PRED_NAMES[k]).collect();
+    format!("[{}]", l.join(","))
+}
+
+/// The model of `JsValue::as_i32` on a number.
+fn as_i32_model(x: f64) -> Option<i32> {
+    if x.is_finite() && x == x.trunc() && (-2_147_483_648.0..=2_147_483_647.0).contains(&x) && !(x == 0.0 && x.is_sign_negative()) {
+        Some(x as i32)
+    } else {
+        None
+    }
+}
+
+/// Observe a value through every public classification path and demand that they agree with each other.
+fn observe(v: &JsValue) -> Result<Abs, String> {
+    let m = preds(v);
+    if m.count_ones() != 1 {
+        return Err(format!("is_* predicates not exclusive: {}", pred_list(m)));
+    }
+    let k = m.trailing_zeros() as usize;
+    let var = v.variant();
+    let vk = match &var {
+        JsVariant::Undefined => 0,
+        JsVariant::Null => 1,
+        JsVariant::Boolean(_) => 2,
+        JsVariant::Integer32(_) | JsVariant::Float64(_) => 3,
+        JsVariant::String(_) => 4,
+        JsVariant::Symbol(_) => 5,
+        JsVariant::BigInt(_) => 6,
+        JsVariant::Object(_) => 7,
+    };
+    if vk != k {
+        return Err(format!("variant() is {var:?} but the predicate that holds is {}", PRED_NAMES[k]));
+    }
+    let ty = v.get_type();
+    let want_ty = [Type::Undefined, Type::Null, Type::Boolean, Type::Number, Type::String, Type::Symbol, Type::BigInt, Type::Object][k];
+    if ty != want_ty {
+        return Err(format!("get_type() is {ty:?} but the predicate that holds is {}", PRED_NAMES[k]));
+    }
+    let tof = v.type_of();
+    let tof_ok = match k {
+        0 => tof == "undefined",
+        1 => tof == "object",
+        2 => tof == "boolean",
+        3 => tof == "number",
+        4 => tof == "string",
+        5 => tof == "symbol",
+        6 => tof == "bigint",
+        _ => tof == "object" || tof == "function",
+    };
+    if !tof_ok || var.type_of() != tof {
+        return Err(format!("type_of() is {tof:?} (variant: {:?}) but the predicate that holds is {}", var.type_of(), PRED_NAMES[k]));
+    }
+    if v.is_null_or_undefined() != (k <= 1) {
+        return Err(format!("is_null_or_undefined() = {} with {}", v.is_null_or_undefined(), PRED_NAMES[k]));
+    }
+    let acc = [
+        false,
+        false,
+        v.as_boolean().is_some(),
+        v.as_number().is_some(),
+        v.as_string().is_some(),
+        v.as_symbol().is_some(),
+        v.as_bigint().is_some(),
+        v.as_object().is_some(),
+    ];
+    for (j, a) in acc.iter().enumerate().skip(2) {
+        if *a != (j == k) {
+            return Err(format!("as_* accessor #{j} ({}) returns Some={a} while {} holds", PRED_NAMES[j].replace("is_", "as_"), PRED_NAMES[k]));
+        }
+    }
+    if k != 3 && v.as_i32().is_some() {
+        return Err(format!("as_i32() is Some on a non-number ({})", PRED_NAMES[k]));
+    }
+    Ok(match k {
+        0 => Abs::Undefined,
+        1 => Abs::Null,
+        2 => {
+            let b = v.as_boolean().unwrap_or(false);
+            if var != JsVariant::Boolean(b) {
+                return Err(format!("as_boolean()={b} but variant()={var:?}"));
+            }
+            Abs::Bool(b)
+        }
+        3 => {
+            let n = v.as_number().unwrap_or(0.0);
+            match var {
+                JsVariant::Integer32(i) => {
+                    if f64::from(i).to_bits() != n.to_bits() {
+                        return Err(format!("variant()=Integer32({i}) but as_number()={n:?}"));
+                    }
+                }
+                JsVariant::Float64(f) => {
+                    if norm(f.to_bits()) != norm(n.to_bits()) {
+                        return Err(format!("variant()=Float64({:#018x}) but as_number()={:#018x}", f.to_bits(), n.to_bits()));
+                    }
+                }
+                _ => {}
+            }
+            let ai = v.as_i32();
+            if ai != as_i32_model(n) {
+                return Err(format!("as_i32()={ai:?} but as_number()={n:?} ({:#018x})", n.to_bits()));
+            }
+            Abs::Num(norm(n.to_bits()))
+        }
+        4 => Abs::Str,
+        5 => Abs::Sym,
+        6 => Abs::Big,
+        _ => Abs::Obj,
+    })
+}
+
+fn std_hash(v: &JsValue) -> u64 {
+    let mut h = std::collections::hash_map::DefaultHasher::new();
+    v.hash(&mut h);
+    h.finish()
+}
+
+fn mix(h: u64, x: u64) -> u64 {
+    (h ^ x).wrapping_mul(0x0000_0100_0000_01B3).rotate_left(23)
+}
+
+/// Full check of one number value that was built from `x` by constructor `ctor`.
+/// Returns the digest of the abstract observation.
+fn check_num(kind: &str, v: JsValue, x_bits: u64, ctor: &str) -> Result<u64, Fail> {
+    let want = Abs::Num(norm(x_bits));
+    let x = f64::from_bits(x_bits);
+    let input = if kind == "i32" { format!("{x}") } else { format!("{x_bits:#018x}") };
+    let inc = |e: String| (format!("{kind}: inconsistent classification"), format!("input {input} via {ctor}: {e}"));
+    let o = observe(&v).map_err(inc)?;
+    if o != want {
+        let what = if matches!(o, Abs::Num(_)) { "number value changed" } else { "number read back as another type" };
+        return Err((format!("{kind}: {what}"), format!("input {input} via {ctor}: expected {want:x?}, observed {o:x?}")));
+    }
+    let tb = v.to_boolean();
+    if tb != (x != 0.0 && !x.is_nan()) {
+        return Err((format!("{kind}: to_boolean"), format!("input {input} via {ctor}: to_boolean()={tb}")));
+    }
+    // clone / equality / hash
+    let c = v.clone();
+    let oc = observe(&c).map_err(inc)?;
+    if oc != want {
+        return Err((format!("{kind}: clone changed the value"), format!("input {input} via {ctor}: clone observed {oc:x?}, expected {want:x?}")));
+    }
+    if !JsValue::same_value(&v, &c) || JsValue::strict_equals(&v, &c) != !x.is_nan() || v != c || std_hash(&v) != std_hash(&c) {
+        return Err((
+            format!("{kind}: clone not equal to original"),
+            format!("input {input} via {ctor}: same_value={} strict_equals={} eq={} hash-equal={}", JsValue::same_value(&v, &c), JsValue::strict_equals(&v, &c), v == c, std_hash(&v) == std_hash(&c)),
+        ));
+    }
+    drop(c);
+    let o2 = observe(&v).map_err(inc)?;
+    if o2 != want {
+        return Err((format!("{kind}: drop of a clone changed the value"), format!("input {input} via {ctor}: observed {o2:x?}")));
+    }
+    // mem::take
+    let mut slot = v;
+    let taken = std::mem::take(&mut slot);
+    let (os, ot) = (observe(&slot).map_err(inc)?, observe(&taken).map_err(inc)?);
+    if os != Abs::Undefined || ot != want {
+        return Err((format!("{kind}: mem::take"), format!("input {input} via {ctor}: slot after take {os:x?}, taken {ot:x?}, expected {want:x?}")));
+    }
+    // through JsVariant and back
+    let back = JsValue::from(taken.variant());
+    let ob = observe(&back).map_err(inc)?;
+    if ob != want {
+        return Err((format!("{kind}: JsVariant round trip"), format!("input {input} via {ctor}: observed {ob:x?}, expected {want:x?}")));
+    }
+    let Abs::Num(b) = want else { unreachable!() };
+    Ok(mix(mix(b, u64::from(tb)), as_i32_model(x).map_or(u64::MAX, |i| i as u32 as u64)))
+}
+
+/// All constructors of a double.
+fn check_f64(bits: u64) -> Result<u64, Fail> {
+    let x = f64::from_bits(bits);
+    let mut d = check_num("f64", JsValue::new(x), bits, "JsValue::new(f64)")?;
+    d = mix(d, check_num("f64", JsValue::rational(x), bits, "JsValue::rational")?);
+    d = mix(d, check_num("f64", JsValue::from(JsVariant::Float64(x)), bits, "JsValue::from(JsVariant::Float64)")?);
+    d = mix(d, check_num("f64", JsValue::from(Numeric::from(x)), bits, "JsValue::from(Numeric::Number)")?);
+    let f = x as f32;
+    if x.is_nan() || f64::from(f).to_bits() == bits {
+        d = mix(d, check_num("f64", JsValue::new(f), bits, "JsValue::new(f32)")?);
+    }
+    if x == x.trunc() && x.abs() < 9.0e18 && !(x == 0.0 && x.is_sign_negative()) {
+        let i = x as i64;
+        d = mix(d, check_num("f64", JsValue::new(i), bits, "JsValue::new(i64)")?);
+        if i >= 0 {
+            d = mix(d, check_num("f64", JsValue::new(i as u64), bits, "JsValue::new(u64)")?);
+            if let Ok(u) = u32::try_from(i) {
+                d = mix(d, check_num("f64", JsValue::new(u), bits, "JsValue::new(u32)")?);
+            }
+        }
+        if let Ok(i) = i32::try_from(i) {
+            d = mix(d, check_num("f64", JsValue::new(i), bits, "JsValue::new(i32)")?);
+        }
+    }
+    Ok(d)
+}
+
+fn check_i32_full(x: i32) -> Result<u64, Fail> {
+    let bits = f64::from(x).to_bits();
+    let mut d = check_num("i32", JsValue::new(x), bits, "JsValue::new(i32)")?;
+    d = mix(d, check_num("i32", JsValue::from(JsVariant::Integer32(x)), bits, "JsValue::from(JsVariant::Integer32)")?);
+    d = mix(d, check_num("i32", JsValue::new(i64::from(x)), bits, "JsValue::new(i64)")?);
+    d = mix(d, check_num("i32", JsValue::new(x as isize), bits, "JsValue::new(isize)")?);
+    d = mix(d, check_num("i32", JsValue::new(f64::from(x)), bits, "JsValue::new(f64)")?);
+    d = mix(d, check_num("i32", JsValue::from(Numeric::from(x)), bits, "JsValue::from(Numeric)")?);
+    // the same 32 bits read as u32: >= 2^31 must not be stored as a (negative) int32
+    let u = x as u32;
+    let ub = f64::from(u).to_bits();
+    d = mix(d, check_num("i32", JsValue::new(u), ub, "JsValue::new(u32)")?);
+    d = mix(d, check_num("i32", JsValue::new(u64::from(u)), ub, "JsValue::new(u64)")?);
+    if let Ok(s) = i16::try_from(x) {
+        d = mix(d, check_num("i32", JsValue::new(s), bits, "JsValue::new(i16)")?);
+    }
+    Ok(d)
+}
+
+/// The lean check used by the exhaustive enumeration.
+#[inline]
+fn check_i32_fast(x: i32) -> Result<(), Fail> {
+    let v = JsValue::new(x);
+    let m = preds(&v);
+    let ok_var = match v.variant() {
+        JsVariant::Integer32(i) => i == x,
+        JsVariant::Float64(f) => f.to_bits() == f64::from(x).to_bits(),
+        _ => false,
+    };
+    let c = v.clone();
+    let mut slot = v;
+    let t = std::mem::take(&mut slot);
+    if m == 8 && ok_var && c.as_i32() == Some(x) && c.as_number().map(f64::to_bits) == Some(f64::from(x).to_bits()) && t.as_i32() == Some(x) && slot.is_undefined() && t.get_type() == Type::Number && t.to_boolean() == (x != 0) {
+        return Ok(());
+    }
+    // re-derive the precise failure
+    match check_i32_full(x) {
+        Err(f) => Err(f),
+        Ok(_) => Err(("i32: fast path check failed".into(), format!("input {x}: predicates {} variant {:?} as_i32 {:?}", pred_list(m), t.variant(), t.as_i32()))),
+    }
+}
+
+// ---------------------------------------------------------------------------------------------------------------
+// classification of bit patterns (labels and the non-trivial rule)
+
+fn near_boundary(x: f64) -> bool {
+    [-2_147_483_648.0, 2_147_483_647.0, 9_007_199_254_740_992.0, -9_007_199_254_740_992.0].iter().any(|b| (x - b).abs() <= 2.0)
+}
+
+/// The stated non-trivial rule on one f64 bit pattern.
+fn nontrivial_bits(b: u64) -> bool {
+    let x = f64::from_bits(b);
+    if x.is_nan() { b != QNAN } else { near_boundary(x) }
+}
+
+fn class_of(b: u64) -> &'static str {
+    let x = f64::from_bits(b);
+    let top = (b >> 48) & 0x7FFF;
+    if x.is_nan() {
+        if b == QNAN {
+            "nan-canonical"
+        } else if top >= 0x7FF9 {
+            match top {
+                0x7FF9 => "nan-tag-int32",
+                0x7FFA => "nan-tag-boolean",
+                0x7FFB => "nan-tag-other",
+                0x7FFC => "nan-tag-object",
+                0x7FFD => "nan-tag-string",
+                0x7FFE => "nan-tag-symbol",
+                _ => "nan-tag-bigint",
+            }
+        } else if top == 0x7FF8 {
+            "nan-quiet-payload-or-negative"
+        } else {
+            "nan-signalling"
+        }
+    } else if x.is_infinite() {
+        "infinity"
+    } else if x == 0.0 {
+        if x.is_sign_negative() { "neg-zero" } else { "pos-zero" }
+    } else if near_boundary(x) {
+        "near-i32-or-2^53-boundary"
+    } else if b & 0x7FF0_0000_0000_0000 == 0 {
+        "subnormal"
+    } else if as_i32_model(x).is_some() {
+        "integral-in-i32"
+    } else if x == x.trunc() {
+        "integral-beyond-i32"
+    } else {
+        "fractional"
+    }
+}
+
+// ---------------------------------------------------------------------------------------------------------------
+// enumerations
+
+/// 64 boundary values of the low 48 mantissa bits.
+fn boundary_mantissas() -> Vec<u64> {
+    let mut m: Vec<u64> = vec![
+        0,
+        1,
+        2,
+        3,
+        7,
+        8,
+        0x10,
+        LOW48,
+        LOW48 - 1,
+        0x8000_0000_0000,
+        0x7FFF_FFFF_FFFF,
+        0x8000_0000_0001,
+        0x4000_0000_0000,
+        0xC000_0000_0000,
+        0xFFFF_FFFF,
+        0xFFFF_FFFE,
+        0x1_0000_0000,
+        0x1_0000_0001,
+        0x7FFF_FFFF,
+        0x8000_0000,
+        0x8000_0001,
+        0xFFFF_0000_0000,
+        0xFFFF_FFFF_0000,
+        0x0000_FFFF_FFFF_0000 & LOW48,
+        0xAAAA_AAAA_AAAA,
+        0x5555_5555_5555,
+        // the mantissa tails of 2^31-1, 2^31+1, 2^53-1 style integers
+        0xFFFF_FFC0_0000,
+        0x0000_0020_0000,
+        0xFFFF_FFFF_FFFE,
+        // pointer-like
+        0x5555_5555_5550,
+        0x5555_5576_92A0,
+        0x7FFF_FFFF_F000,
+        0x7FFF_F7DD_1010,
+        0x7F00_0000_0010,
+        0x0000_0001_0008,
+        0x0000_0040_0000,
+        0x0000_6000_0000,
+        0x00C0_0000_1000,
+    ];
+    let mut k = 4;
+    while m.len() < 64 {
+        let c = 1u64 << k;
+        if !m.contains(&c) {
+            m.push(c);
+        }
+        k += 1;
+        if k >= 48 {
+            k = 5;
+            // second pass: all-ones below bit k
+            while m.len() < 64 {
+                let c = (1u64 << k) - 1;
+                if !m.contains(&c) {
+                    m.push(c);
+                }
+                k += 3;
+            }
+        }
+    }
+    m.truncate(64);
+    m
+}
+
+const NAN_GROUPS: u64 = 64;
+const N_STRUCT_BLOCKS: u64 = 4096;
+/// structured stream: 4096 sign/exponent blocks + 1 boundary-value block + 16*64 NaN-space groups
+const N_STRUCT_CASES: u64 = N_STRUCT_BLOCKS + 1 + 16 * NAN_GROUPS;
+
+fn splitmix(mut x: u64) -> u64 {
+    x = x.wrapping_add(0x9E37_79B9_7F4A_7C15);
+    let mut z = x;
+    z = (z ^ (z >> 30)).wrapping_mul(0xBF58_476D_1CE4_E5B9);
+    z = (z ^ (z >> 27)).wrapping_mul(0x94D0_49BB_1331_11EB);
+    z ^ (z >> 31)
+}
+
+/// Pointer-like / tag-payload-like low 48 bits, deterministic in (group, j).
+fn pointer_like(g: u64, j: u64) -> u64 {
+    let n = (g / 8) * 64 + j;
+    (match g % 8 {
+        0 => n,
+        1 => 0x5555_5555_0000 + (n << 4),
+        2 => 0x7FFF_F7A0_0000 + (n << 3),
+        3 => 0x0000_0100_0000 + (n << 12),
+        4 => splitmix(n) & 0xFFFF_FFFF,
+        5 => LOW48 - n,
+        6 => (1u64 << (n % 48)) | 8,
+        _ => splitmix(n ^ 0xC12),
+    }) & LOW48
+}
+
+fn nan_space_tops() -> Vec<u64> {
+    (0x7FF8..=0x7FFFu64).chain(0xFFF8..=0xFFFFu64).collect()
+}
+
+fn boundary_values() -> Vec<u64> {
+    let mut out = vec![];
+    for k in [0, 1, 7, 8, 15, 16, 24, 30, 31, 32, 33, 52, 53, 54, 62, 63, 64, 127, 128, 1023] {
+        for s in [1.0f64, -1.0] {
+            let b = s * 2f64.powi(k);
+            for d in -4..=4 {
+                out.push((b + f64::from(d)).to_bits());
+            }
+            for d in [-0.5, 0.5, -0.25, 0.75] {
+                out.push((b + d).to_bits());
+            }
+            for u in 1..=3u64 {
+                out.push(b.to_bits() + u);
+                out.push(b.to_bits() - u);
+            }
+        }
+    }
+    for x in [0.0, -0.0, f64::MIN_POSITIVE, f64::MAX, -f64::MAX, f64::EPSILON, 0.1, 0.5, 1.5, -1.5, 2_147_483_647.5, -2_147_483_648.5, f64::INFINITY, f64::NEG_INFINITY, f64::NAN, -f64::NAN] {
+        out.push(x.to_bits());
+    }
+    for b in [1u64, 2, 0x000F_FFFF_FFFF_FFFF, 0x0010_0000_0000_0000, 0x8000_0000_0000_0001, 0x7FF0_0000_0000_0001, 0xFFF0_0000_0000_0001, 0x7FF7_FFFF_FFFF_FFFF, u64::MAX] {
+        out.push(b);
+    }
+    out
+}
+
+fn i32_centers() -> Vec<i64> {
+    let mut c = vec![0i64, i64::from(i32::MIN), i64::from(i32::MAX)];
+    for k in 0..31 {
+        c.push(1i64 << k);
+        c.push(-(1i64 << k));
+    }
+    c
+}
+
+// ---------------------------------------------------------------------------------------------------------------
+// API lines: the rendered form of the Rust-API streams
+
+#[derive(Default)]
+struct LineOk {
+    digest: u64,
+    values: u64,
+    nontrivial: bool,
+    labels: Vec<&'static str>,
+}
+
+/// a failing single value, rendered as its own API line
+struct LineFail {
+    rendered: String,
+    sig: String,
+    detail: String,
+}
+
+fn kv<'a>(line: &'a str, key: &str) -> Option<&'a str> {
+    line.split_whitespace().find_map(|w| w.strip_prefix(key).and_then(|r| r.strip_prefix('=')))
+}
+
+fn parse_u64(s: &str) -> Option<u64> {
+    if let Some(h) = s.strip_prefix("0x") { u64::from_str_radix(h, 16).ok() } else { s.parse().ok() }
+}
+
+fn is_api_line(s: &str) -> bool {
+    let s = s.trim();
+    !s.contains('\n') && ["i32 ", "f64 ", "i32-range ", "f64-block ", "f64-boundaries", "nan-space ", "heap"].iter().any(|p| s.starts_with(p))
+}
+
+fn f64_values(acc: &mut LineOk, it: impl Iterator<Item = u64>) -> Result<(), LineFail> {
+    let mut classes: Vec<&'static str> = vec![];
+    for b in it {
+        match check_f64(b) {
+            Ok(d) => acc.digest = mix(acc.digest, d),
+            Err((sig, detail)) => return Err(LineFail { rendered: format!("f64 {b:#018x}"), sig, detail }),
+        }
+        acc.values += 1;
+        acc.nontrivial |= nontrivial_bits(b);
+        let c = class_of(b);
+        if !classes.contains(&c) {
+            classes.push(c);
+        }
+    }
+    for c in classes {
+        if !acc.labels.contains(&c) {
+            acc.labels.push(c);
+        }
+    }
+    Ok(())
+}
+
+fn run_api_line(line: &str) -> Result<LineOk, LineFail> {
+    let line = line.trim();
+    let mut acc = LineOk::default();
+    let bad = |why: &str| LineFail { rendered: line.to_string(), sig: "harness: unparsable API line".into(), detail: why.to_string() };
+    if let Some(r) = line.strip_prefix("i32 ") {
+        let x: i32 = r.trim().parse().map_err(|_| bad("i32 value"))?;
+        acc.digest = check_i32_full(x).map_err(|(sig, detail)| LineFail { rendered: line.to_string(), sig, detail })?;
+        acc.values = 1;
+        acc.nontrivial = near_boundary(f64::from(x));
+        acc.labels.push("i32-single");
+    } else if let Some(r) = line.strip_prefix("f64 ") {
+        let b = parse_u64(r.trim()).ok_or_else(|| bad("f64 bits"))?;
+        f64_values(&mut acc, std::iter::once(b))?;
+    } else if line.starts_with("i32-range ") {
+        let start: i64 = kv(line, "start").and_then(|s| s.parse().ok()).ok_or_else(|| bad("start"))?;
+        let step: i64 = kv(line, "step").and_then(|s| s.parse().ok()).ok_or_else(|| bad("step"))?;
+        let count: u64 = kv(line, "count").and_then(|s| s.parse().ok()).ok_or_else(|| bad("count"))?;
+        let full = kv(line, "mode") != Some("fast");
+        if step < 1 || count > (1 << 24) {
+            return Err(bad("step/count out of range"));
+        }
+        let mut x = start;
+        for _ in 0..count {
+            if x > i64::from(i32::MAX) {
+                break;
+            }
+            if x >= i64::from(i32::MIN) {
+                let xi = x as i32;
+                let r = if full { check_i32_full(xi).map(|d| acc.digest = mix(acc.digest, d)) } else { check_i32_fast(xi).map(|()| acc.digest = mix(acc.digest, xi as u32 as u64)) };
+                if let Err((sig, detail)) = r {
+                    return Err(LineFail { rendered: format!("i32 {xi}"), sig, detail });
+                }
+                acc.values += 1;
+                acc.nontrivial |= xi <= i32::MIN + 2 || xi >= i32::MAX - 2;
+            }
+            x += step;
+        }
+        acc.labels.push(if full { "i32-range-full-check" } else { "i32-range-fast-check" });
+        if start < 0 {
+            acc.labels.push("i32-negative");
+        }
+        if acc.nontrivial {
+            acc.labels.push("i32-at-MIN-or-MAX");
+        }
+    } else if line.starts_with("f64-block ") {
+        let sign = kv(line, "sign").and_then(parse_u64).ok_or_else(|| bad("sign"))?;
+        let exp = kv(line, "exp").and_then(parse_u64).ok_or_else(|| bad("exp"))?;
+        if sign > 1 || exp > 0x7FF {
+            return Err(bad("sign/exp out of range"));
+        }
+        let mants = boundary_mantissas();
+        let it = (0..16u64).flat_map(|nib| mants.iter().map(move |m| (sign << 63) | (exp << 52) | (nib << 48) | m).collect::<Vec<_>>());
+        f64_values(&mut acc, it)?;
+    } else if line.starts_with("f64-boundaries") {
+        f64_values(&mut acc, boundary_values().into_iter())?;
+    } else if line.starts_with("nan-space ") {
+        let top = kv(line, "top").and_then(parse_u64).ok_or_else(|| bad("top"))?;
+        let g = kv(line, "group").and_then(parse_u64).ok_or_else(|| bad("group"))?;
+        if top > 0xFFFF || g >= NAN_GROUPS {
+            return Err(bad("top/group out of range"));
+        }
+        f64_values(&mut acc, (0..64).map(|j| (top << 48) | pointer_like(g, j)))?;
+    } else if line.starts_with("heap") {
+        return run_heap_line(line);
+    } else {
+        return Err(bad("unknown line kind"));
+    }
+    Ok(acc)
+}
+
+/// The API line of case `index` of the structured stream.
+fn struct_line(index: u64) -> String {
+    if index < N_STRUCT_BLOCKS {
+        format!("f64-block sign={} exp={:#05x}", index >> 11, index & 0x7FF)
+    } else if index == N_STRUCT_BLOCKS {
+        "f64-boundaries".to_string()
+    } else {
+        let k = index - N_STRUCT_BLOCKS - 1;
+        let tops = nan_space_tops();
+        format!("nan-space top={:#06x} group={}", tops[(k / NAN_GROUPS) as usize % 16], k % NAN_GROUPS)
+    }
+}
+
+fn i32_line(tier: Tier, index: u64) -> String {
+    if tier == Tier::Quick {
+        // every 2^8-th value: 1024 chunks of 16384 values
+        format!("i32-range start={} step=256 count=16384 mode=full", i64::from(i32::MIN) + (index as i64) * 256 * 16384)
+    } else {
+        format!("i32-range start={} step=1 count=65536 mode=fast", i64::from(i32::MIN) + (index as i64) * 65536)
+    }
+}
+
+fn i32_near_line(index: u64) -> String {
+    let c = i32_centers();
+    let c = c[index as usize % c.len()];
+    let start = (c - 1024).max(i64::from(i32::MIN));
+    let end = (c + 1024).min(i64::from(i32::MAX));
+    format!("i32-range start={start} step=1 count={} mode=full", end - start + 1)
+}
+
+/// Run a rendered input consisting of API lines.
+fn run_api_lines(rendered: &str, extra_labels: Vec<&'static str>) -> CaseOut {
+    let mut labels = extra_labels;
+    let mut nontrivial = false;
+    let mut any = false;
+    for line in rendered.lines().filter(|l| !l.trim().is_empty()) {
+        any = true;
+        match run_api_line(line) {
+            Ok(ok) => {
+                nontrivial |= ok.nontrivial;
+                for l in ok.labels {
+                    if !labels.contains(&l) {
+                        labels.push(l);
+                    }
+                }
+            }
+            Err(f) => return CaseOut::fail(f.rendered, f.sig, f.detail).with_labels(labels),
+        }
+    }
+    if !any {
+        return CaseOut::skip(rendered.to_string(), "empty rendered input");
+    }
+    CaseOut::pass(rendered.to_string(), nontrivial).with_labels(labels)
+}
+
+// ---------------------------------------------------------------------------------------------------------------
+// tape-driven bit patterns
+
+fn low48(t: &mut Tape) -> u64 {
+    (match t.below(12) {
+        0 => 0,
+        1 => 1,
+        2 => 8,
+        3 => LOW48,
+        4 => 0x8000_0000_0000,
+        5 => u64::from(t.u32()),
+        6 => [0x7FFF_FFFF, 0x8000_0000, 0xFFFF_FFFF, 0x1_0000_0000][t.below(4)],
+        7 => 0x5555_5555_0000 + (u64::from(t.u16()) << 4),
+        8 => 0x7FFF_F000_0000 + (u64::from(t.u16()) << 3),
+        9 => 1u64 << t.below(48),
+        10 => (1u64 << t.below(48)) - 1,
+        _ => t.u64(),
+    }) & LOW48
+}
+
+/// One f64 bit pattern from the tape, biased to the NaN/tag danger zone and the integer boundaries.
+fn gen_pattern(t: &mut Tape) -> (u64, &'static str) {
+    match t.weighted(&[2, 9, 4, 5, 3, 4, 3, 3]) {
+        0 => ([0.0f64, 1.0, -1.0, 2.0, -2.0, 3.0, 0.5][t.below(7)].to_bits(), "gen-small-int"),
+        1 => {
+            let sign = u64::from(t.bool());
+            let top = 0x7FF8 | t.below(8) as u64;
+            ((sign << 63) | (top << 48) | low48(t), "gen-nan-tag-space")
+        }
+        2 => {
+            let sign = u64::from(t.bool());
+            let nib = t.below(16) as u64;
+            ((sign << 63) | (0x7FF << 52) | (nib << 48) | low48(t), "gen-exp-all-ones")
+        }
+        3 => {
+            let k = [31, 32, 30, 53, 52, 63, 64, 16, 8][t.below(9)];
+            let s = if t.bool() { -1.0 } else { 1.0 };
+            let b = s * 2f64.powi(k);
+            let bits = match t.below(3) {
+                0 => (b + (t.below(5) as f64 - 2.0)).to_bits(),
+                1 => (b + [-0.5, 0.5, -1.5, 1.5][t.below(4)]).to_bits(),
+                _ => {
+                    let u = t.below(5) as u64;
+                    if u <= 2 { b.to_bits() + u } else { b.to_bits() - (u - 2) }
+                }
+            };
+            (bits, "gen-int-boundary")
+        }
+        4 => {
+            let l = [
+                (-0.0f64).to_bits(),
+                f64::INFINITY.to_bits(),
+                f64::NEG_INFINITY.to_bits(),
+                1,
+                0x000F_FFFF_FFFF_FFFF,
+                0x0010_0000_0000_0000,
+                f64::MAX.to_bits(),
+                f64::EPSILON.to_bits(),
+                0x7FF0_0000_0000_0001,
+                0xFFF0_0000_0000_0001,
+                QNAN,
+                0xFFF8_0000_0000_0000,
+                u64::MAX,
+                0x8000_0000_0000_0001,
+            ];
+            (l[t.below(l.len())], "gen-special")
+        }
+        5 => (t.u64(), "gen-uniform"),
+        6 => {
+            let sign = u64::from(t.bool());
+            let exp = t.below(2048) as u64;
+            let nib = t.below(16) as u64;
+            ((sign << 63) | (exp << 52) | (nib << 48) | low48(t), "gen-exp-structured")
+        }
+        _ => {
+            let i = t.u32() as i32;
+            let x = f64::from(i) + [0.0, 0.0, 0.5, -0.5][t.below(4)];
+            (x.to_bits(), "gen-i32-double")
+        }
+    }
+}
+
+// ---------------------------------------------------------------------------------------------------------------
+// heap values
+
+/// The raw 64 bits of a NaN-boxed value (white-box probe, only used to craft hostile NaN inputs from *live* tagged
+/// pointers; absent under the enum representation).
+#[cfg(not(feature = "jsvalue-enum"))]
+fn raw_bits(v: &JsValue) -> Option<u64> {
+    if size_of::<JsValue>() == 8 {
+        // SAFETY: JsValue is a transparent-sized wrapper of one pointer-sized word in this configuration.
+        Some(unsafe { std::ptr::read(std::ptr::from_ref(v).cast::<u64>()) })
+    } else {
+        None
+    }
+}
+#[cfg(feature = "jsvalue-enum")]
+fn raw_bits(_v: &JsValue) -> Option<u64> {
+    None
+}
+
+enum Handle {
+    Str(JsString),
+    Sym(JsSymbol),
+    Big(JsBigInt),
+    Obj(JsObject),
+    /// an object whose only remaining reference is inside the engine container (marker property = index)
+    Gone,
+}
+
+const STATIC_STRINGS: [&str; 6] = ["length", "prototype", "constructor", "", "name", "toString"];
+
+fn static_string(k: usize) -> JsString {
+    match k % 6 {
+        0 => js_string!("length"),
+        1 => js_string!("prototype"),
+        2 => js_string!("constructor"),
+        3 => js_string!(""),
+        4 => js_string!("name"),
+        _ => js_string!("toString"),
+    }
+}
+
+fn gen_heap_line(t: &mut Tape) -> String {
+    let n = 48 + t.below(8) * 96;
+    let mut s = String::from("heap");
+    for i in 0..n {
+        match t.weighted(&[5, 2, 2, 3, 1, 3, 2, 4, 3, 2, 1]) {
+            0 => s.push_str(&format!(" S{}", t.below(200))),
+            1 => s.push_str(&format!(" U{}", 1 + t.below(40))),
+            2 => s.push_str(&format!(" s{}", t.below(6))),
+            3 => s.push_str(" Y"),
+            4 => s.push_str(" y"),
+            5 => s.push_str(&format!(" B{}", i64::from(t.u32() as i32) * [1, 1, 65537, -4_294_967_297][t.below(4)])),
+            6 => s.push_str(&format!(" G{}", 64 + t.below(400))),
+            7 => s.push_str(" O"),
+            8 => s.push_str(" P"),
+            9 => s.push_str(" A"),
+            _ => s.push_str(" F"),
+        }
+        let _ = i;
+    }
+    s
+}
+
+fn value_of(h: &Handle) -> JsValue {
+    match h {
+        Handle::Str(s) => JsValue::new(s.clone()),
+        Handle::Sym(s) => JsValue::new(s.clone()),
+        Handle::Big(b) => JsValue::new(b.clone()),
+        Handle::Obj(o) => JsValue::new(o.clone()),
+        Handle::Gone => JsValue::undefined(),
+    }
+}
+
+fn abs_of(h: &Handle) -> Abs {
+    match h {
+        Handle::Str(_) => Abs::Str,
+        Handle::Sym(_) => Abs::Sym,
+        Handle::Big(_) => Abs::Big,
+        Handle::Obj(_) | Handle::Gone => Abs::Obj,
+    }
+}
+
+/// Is `v` the very heap value `h` (pointer identity / unique id), with the right type?
+fn ident(h: &Handle, v: &JsValue) -> Result<(), String> {
+    let o = observe(v)?;
+    if o != abs_of(h) {
+        return Err(format!("expected {:?}, observed {o:?}", abs_of(h)));
+    }
+    match h {
+        Handle::Str(s) => {
+            let before = s.refcount();
+            let g = v.as_string().ok_or("as_string() is None")?;
+            if g != *s {
+                return Err(format!("string content changed: {:?} -> {:?}", s.to_std_string_escaped(), g.to_std_string_escaped()));
+            }
+            if s.is_static() != g.is_static() {
+                return Err("static-ness of the string changed".into());
+            }
+            if let Some(b) = before {
+                if s.refcount() != Some(b + 1) {
+                    return Err(format!("as_string() did not return the same allocation: refcount {b} -> {:?} while the result is alive", s.refcount()));
+                }
+                drop(g);
+                if s.refcount() != Some(b) {
+                    return Err(format!("refcount not restored after dropping the as_string() result: {b} -> {:?}", s.refcount()));
+                }
+            }
+            if v.type_of() != "string" {
+                return Err(format!("type_of {}", v.type_of()));
+            }
+        }
+        Handle::Sym(y) => {
+            let g = v.as_symbol().ok_or("as_symbol() is None")?;
+            if g.hash() != y.hash() || g != *y || g.description() != y.description() {
+                return Err("as_symbol() returned another symbol".into());
+            }
+        }
+        Handle::Big(b) => {
+            let g = v.as_bigint().ok_or("as_bigint() is None")?;
+            if !std::ptr::eq(g.as_inner(), b.as_inner()) {
+                return Err("as_bigint() returned another allocation".into());
+            }
+            if g != *b {
+                return Err("bigint value changed".into());
+            }
+        }
+        Handle::Obj(ob) => {
+            let g = v.as_object().ok_or("as_object() is None")?;
+            if !JsObject::equals(&g, ob) {
+                return Err("as_object() returned another object".into());
+            }
+            if v.is_callable() != ob.is_callable() || (v.type_of() == "function") != ob.is_callable() {
+                return Err(format!("callability changed: is_callable={} type_of={}", v.is_callable(), v.type_of()));
+            }
+            match v.variant() {
+                JsVariant::Object(g2) if JsObject::equals(&g2, ob) => {}
+                other => return Err(format!("variant() returned {other:?}")),
+            }
+        }
+        Handle::Gone => {}
+    }
+    Ok(())
+}
+
+fn str_rc(h: &Handle) -> Option<usize> {
+    if let Handle::Str(s) = h { s.refcount() } else { None }
+}
+
+fn run_heap_line(line: &str) -> Result<LineOk, LineFail> {
+    let mk = |sig: &str, detail: String| LineFail { rendered: line.to_string(), sig: format!("heap: {sig}"), detail };
+    let toks: Vec<&str> = line.split_whitespace().skip(1).collect();
+    let mut acc = LineOk::default();
+    let mut ctx = Context::default();
+
+    // primitives that are not numbers
+    for (v, want, name) in [
+        (JsValue::new(true), Abs::Bool(true), "true"),
+        (JsValue::new(false), Abs::Bool(false), "false"),
+        (JsValue::null(), Abs::Null, "null"),
+        (JsValue::undefined(), Abs::Undefined, "undefined"),
+        (JsValue::from(()), Abs::Null, "()"),
+        (JsValue::default(), Abs::Undefined, "default"),
+        (JsValue::from(JsVariant::Boolean(true)), Abs::Bool(true), "variant true"),
+        (JsValue::from(JsVariant::Null), Abs::Null, "variant null"),
+        (JsValue::from(JsVariant::Undefined), Abs::Undefined, "variant undefined"),
+        (JsValue::nan(), Abs::Num(QNAN), "nan()"),
+        (JsValue::positive_infinity(), Abs::Num(f64::INFINITY.to_bits()), "+inf"),
+        (JsValue::negative_infinity(), Abs::Num(f64::NEG_INFINITY.to_bits()), "-inf"),
+    ] {
+        let o = observe(&v).map_err(|e| mk("inconsistent classification", format!("{name}: {e}")))?;
+        let c = v.clone();
+        let mut slot = v;
+        let t = std::mem::take(&mut slot);
+        let (oc, ot, os) = (observe(&c), observe(&t), observe(&slot));
+        if o != want || oc != Ok(want) || ot != Ok(want) || os != Ok(Abs::Undefined) {
+            return Err(mk("primitive changed", format!("{name}: expected {want:?}; new {o:?} clone {oc:?} taken {ot:?} slot {os:?}")));
+        }
+        let tb = t.to_boolean();
+        if tb != matches!(want, Abs::Bool(true) | Abs::Num(0x7FF0_0000_0000_0000 | 0xFFF0_0000_0000_0000)) {
+            return Err(mk("primitive to_boolean", format!("{name}: to_boolean {tb}")));
+        }
+        if !matches!(want, Abs::Num(QNAN)) && (!JsValue::strict_equals(&c, &t) || !JsValue::same_value(&c, &t)) {
+            return Err(mk("primitive not equal to its clone", name.to_string()));
+        }
+        acc.digest = mix(acc.digest, u64::from(tb));
+    }
+
+    // create everything first so that addresses spread
+    let mut handles: Vec<Handle> = Vec::with_capacity(toks.len());
+    let mut ballast: Vec<Vec<u8>> = vec![];
+    for (i, tok) in toks.iter().enumerate() {
+        let (kind, arg) = tok.split_at(1);
+        let n: i64 = arg.parse().unwrap_or(0);
+        let h = match kind {
+            "S" => {
+                let body: String = format!("s{i}-").chars().chain(std::iter::repeat_n('x', n.clamp(0, 4096) as usize)).collect();
+                acc.labels.push("heap-string");
+                Handle::Str(JsString::from(body.as_str()))
+            }
+            "U" => {
+                let body: String = format!("u{i}\u{3bb}").chars().chain(std::iter::repeat_n('\u{4e16}', n.clamp(0, 4096) as usize)).collect();
+                acc.labels.push("heap-string-utf16");
+                Handle::Str(JsString::from(body.as_str()))
+            }
+            "s" => {
+                acc.labels.push("static-string");
+                let s = static_string(n.unsigned_abs() as usize);
+                if s.to_std_string_escaped() != STATIC_STRINGS[n.unsigned_abs() as usize % 6] {
+                    return Err(mk("static string content", format!("{tok}")));
+                }
+                Handle::Str(s)
+            }
+            "Y" => {
+                acc.labels.push("symbol");
+                Handle::Sym(JsSymbol::new(Some(JsString::from(format!("sym{i}").as_str()))).ok_or_else(|| mk("symbol allocation failed", String::new()))?)
+            }
+            "y" => {
+                acc.labels.push("symbol");
+                Handle::Sym(JsSymbol::new(None).ok_or_else(|| mk("symbol allocation failed", String::new()))?)
+            }
+            "B" => {
+                acc.labels.push("bigint");
+                Handle::Big(JsBigInt::from(n))
+            }
+            "G" => {
+                acc.labels.push("bigint-large");
+                Handle::Big(JsBigInt::shift_left(&JsBigInt::from(2 * i as i64 + 1), &JsBigInt::from(n.clamp(0, 2000))).map_err(|e| mk("bigint shift failed", e.to_string()))?)
+            }
+            "O" => {
+                acc.labels.push("object");
+                Handle::Obj(JsObject::with_null_proto())
+            }
+            "P" => {
+                acc.labels.push("object");
+                Handle::Obj(JsObject::with_object_proto(ctx.intrinsics()))
+            }
+            "A" => {
+                acc.labels.push("array-object");
+                Handle::Obj(JsArray::new(&mut ctx).map_err(|e| mk("array allocation failed", e.to_string()))?.into())
+            }
+            "F" => {
+                acc.labels.push("function-object");
+                Handle::Obj(ctx.intrinsics().constructors().object().constructor())
+            }
+            _ => return Err(mk("harness: unknown heap token", (*tok).to_string())),
+        };
+        handles.push(h);
+        ballast.push(vec![0u8; (i * 37) % 509 + 1]);
+    }
+    acc.labels.sort_unstable();
+    acc.labels.dedup();
+
+    // phase 1: per-value round trips
+    let mut pages = std::collections::BTreeSet::new();
+    let mut regions = std::collections::BTreeSet::new();
+    let mut crafted = 0u64;
+    for (i, h) in handles.iter().enumerate() {
+        let at = |e: String| mk("round trip", format!("item {i} ({}): {e}", toks[i]));
+        let rc0 = str_rc(h);
+        let v = value_of(h);
+        ident(h, &v).map_err(at)?;
+        if let Some(r) = rc0 {
+            if str_rc(h) != Some(r + 1) {
+                return Err(mk("string refcount", format!("item {i}: JsValue::new(clone) took refcount {r} -> {:?}", str_rc(h))));
+            }
+        }
+        let c = v.clone();
+        ident(h, &c).map_err(at)?;
+        if let Some(r) = rc0 {
+            if str_rc(h) != Some(r + 2) {
+                return Err(mk("string refcount", format!("item {i}: JsValue::clone took refcount to {:?}, expected {}", str_rc(h), r + 2)));
+            }
+        }
+        if !JsValue::same_value(&v, &c) || !JsValue::strict_equals(&v, &c) || v != c || std_hash(&v) != std_hash(&c) {
+            return Err(mk("clone not equal to original", format!("item {i} ({})", toks[i])));
+        }
+        drop(c);
+        let mut slot = v;
+        let t = std::mem::take(&mut slot);
+        if observe(&slot) != Ok(Abs::Undefined) {
+            return Err(mk("mem::take left a non-undefined value", format!("item {i}")));
+        }
+        ident(h, &t).map_err(at)?;
+        let back = JsValue::from(t.variant());
+        ident(h, &back).map_err(at)?;
+        drop(back);
+        if let Some(r) = rc0 {
+            if str_rc(h) != Some(r + 1) {
+                return Err(mk("string refcount", format!("item {i}: after clone/drop/take/variant refcount is {:?}, expected {}", str_rc(h), r + 1)));
+            }
+        }
+        // hostile doubles made of the live tagged pointer
+        let mut cands: Vec<u64> = vec![];
+        if let Some(r) = raw_bits(&t) {
+            if (r >> 52) & 0x7FF == 0x7FF {
+                pages.insert((r & LOW48) >> 12);
+                regions.insert((r & LOW48) >> 36);
+                cands.extend([r, r | (1 << 63), r ^ (1 << 48), r ^ (1 << 49), r ^ (3 << 48)]);
+                for tag in [0x7FF9u64, 0x7FFC, 0x7FFD, 0x7FFE, 0x7FFF, 0xFFFC] {
+                    cands.push((tag << 48) | (r & LOW48));
+                }
+            }
+        } else if let Handle::Obj(o) = h {
+            let a = std::ptr::from_ref(o.as_ref()) as usize as u64 & LOW48;
+            pages.insert(a >> 12);
+            for tag in [0x7FFCu64, 0x7FFD, 0xFFFC] {
+                cands.extend([(tag << 48) | a, (tag << 48) | a.wrapping_sub(16) & LOW48 | (tag << 48), (tag << 48) | a.wrapping_sub(24) & LOW48 | (tag << 48)]);
+            }
+        }
+        for cand in cands {
+            if f64::from_bits(cand).is_nan() {
+                check_f64(cand).map_err(|(sig, detail)| LineFail { rendered: line.to_string(), sig: format!("heap: crafted NaN {sig}"), detail: format!("item {i} ({}): double {cand:#018x} made of the live tagged pointer: {detail}", toks[i]) })?;
+                crafted += 1;
+            }
+        }
+        ident(h, &t).map_err(|e| mk("value disturbed by a crafted NaN", format!("item {i}: {e}")))?;
+        drop(t);
+        if rc0.is_some() && str_rc(h) != rc0 {
+            return Err(mk("string refcount", format!("item {i}: refcount not restored: {rc0:?} -> {:?}", str_rc(h))));
+        }
+        acc.digest = mix(acc.digest, match abs_of(h) { Abs::Str => 1, Abs::Sym => 2, Abs::Big => 3, _ => 4 });
+        acc.values += 1;
+    }
+
+    // phase 2: engine containers + garbage collection (objects survive only through the traced JsValue)
+    let arr = JsArray::new(&mut ctx).map_err(|e| mk("array allocation failed", e.to_string()))?;
+    let map = boa_engine::object::builtins::JsMap::new(&mut ctx);
+    for (i, h) in handles.iter_mut().enumerate() {
+        let v = value_of(h);
+        map.set(v.clone(), i as i32, &mut ctx).map_err(|e| mk("Map.set failed", e.to_string()))?;
+        arr.push(v, &mut ctx).map_err(|e| mk("Array.push failed", e.to_string()))?;
+        if let Handle::Obj(o) = h {
+            if !o.is_callable() {
+                o.set(js_string!("c12id"), i as i32, false, &mut ctx).map_err(|e| mk("marker set failed", e.to_string()))?;
+                *h = Handle::Gone;
+            }
+        }
+    }
+    drop(ballast);
+    boa_gc::force_collect();
+    for (i, h) in handles.iter().enumerate() {
+        let got = arr.get(i as u32, &mut ctx).map_err(|e| mk("Array get failed", e.to_string()))?;
+        ident(h, &got).map_err(|e| mk("value changed inside an engine array across a collection", format!("item {i} ({}): {e}", toks[i])))?;
+        if matches!(h, Handle::Gone) {
+            let o = got.as_object().ok_or_else(|| mk("object lost", format!("item {i}")))?;
+            let id = o.get(js_string!("c12id"), &mut ctx).map_err(|e| mk("marker get failed", e.to_string()))?;
+            if id.as_i32() != Some(i as i32) {
+                return Err(mk("object identity lost across a collection", format!("item {i}: marker reads {id:?}")));
+            }
+        }
+        let k = map.get(got.clone(), &mut ctx).map_err(|e| mk("Map.get failed", e.to_string()))?;
+        if k.as_i32() != Some(i as i32) && !toks[i].starts_with('s') && !toks[i].starts_with('F') && !toks[i].starts_with('B') {
+            // static strings, the shared Object constructor and equal small bigints are legitimately the same key
+            return Err(mk("Map lookup by the stored value", format!("item {i} ({}): Map.get returned {k:?}", toks[i])));
+        }
+    }
+    acc.labels.push("heap-gc-roundtrip");
+    if crafted > 0 {
+        acc.labels.push("nan-crafted-from-live-tagged-pointer");
+        acc.nontrivial = true;
+    }
+    if pages.len() >= 16 {
+        acc.labels.push("heap-pointers-span-16+-pages");
+    }
+    if regions.len() >= 2 {
+        acc.labels.push("heap-pointers-in-2+-address-regions");
+    }
+    Ok(acc)
+}
+
+// ---------------------------------------------------------------------------------------------------------------
+// JS programs that manufacture bit patterns
+
+pub const SCRIPT_PRELUDE: &str = "var B = new ArrayBuffer(16), F = new Float64Array(B), U = new BigUint64Array(B), W = new Uint32Array(B), Y = new Uint8Array(B), D = new DataView(B), G = new Float32Array(B);
+var OB = new ArrayBuffer(16), OF = new Float64Array(OB), OU = new BigUint64Array(OB), OG = new Float32Array(OB), OW = new Uint32Array(OB), OD = new DataView(OB);
+function bits(x) { if (typeof x !== 'number') return 'T=' + typeof x; if (x !== x) return 'NaN'; OF[0] = x; return OU[0].toString(16); }
+function hx(b) { return b.toString(16); }
+function id(x) { return x; }
+function tr(f) { try { return f(); } catch (e) { return e instanceof RangeError ? 'RangeError' : e instanceof TypeError ? 'TypeError' : 'Error'; } }
+";
+
+const ACCESSORS: [&str; 16] = [
+    "F.at(0)",
+    "Array.from(F)[0]",
+    "[...F][0]",
+    "Reflect.get(F, 0)",
+    "Object.getOwnPropertyDescriptor(F, '0').value",
+    "F.subarray(0, 1)[0]",
+    "F.slice(0, 1)[0]",
+    "F.values().next().value",
+    "F.entries().next().value[1]",
+    "F.find(function () { return true; })",
+    "F.map(id)[0]",
+    "F.reduce(function (a, x) { return a === null ? x : a; }, null)",
+    "Array.prototype.slice.call(F, 0, 1)[0]",
+    "Object.values(F)[0]",
+    "(function () { var r; F.forEach(function (x, k) { if (k === 0) r = x; }); return r; })()",
+    "F['0']",
+];
+
+/// 32-bit float pattern whose widening lands in the danger zone.
+fn f32_pattern(t: &mut Tape) -> u32 {
+    match t.below(6) {
+        0 => 0,
+        1 => (u32::from(t.bool()) << 31) | 0x7FC0_0000 | ((t.below(8) as u32) << 19) | (t.u32() & 0x7_FFFF),
+        2 => (u32::from(t.bool()) << 31) | 0x7F80_0000 | (t.u32() & 0x7F_FFFF),
+        3 => [0x8000_0000u32, 0x7F80_0000, 0xFF80_0000, 0x4F00_0000, 0xCF00_0000, 0x4EFF_FFFF, 0x0000_0001, 0x7F7F_FFFF, 0x3F80_0000][t.below(9)],
+        4 => ((t.u32() as i32) as f32).to_bits(),
+        _ => t.u32(),
+    }
+}
+
+fn manufacture(t: &mut Tape, i: usize, labels: &mut Vec<&'static str>) -> (String, u64) {
+    let (p, class) = gen_pattern(t);
+    labels.push(class);
+    let (hi, lo) = ((p >> 32) as u32, p as u32);
+    let tail = |eff: u64| format!(" // p={eff:#018x}");
+    match t.below(10) {
+        0 => {
+            labels.push("via-BigUint64Array");
+            (format!("U[0] = {p:#018x}n; var v{i} = F[0];{}", tail(p)), p)
+        }
+        1 => {
+            labels.push("via-Uint32Array-pair");
+            (format!("W[0] = {lo:#010x}; W[1] = {hi:#010x}; var v{i} = F[0];{}", tail(p)), p)
+        }
+        2 => {
+            labels.push("via-DataView-setUint32-be");
+            (format!("D.setUint32(0, {hi:#010x}); D.setUint32(4, {lo:#010x}); var v{i} = D.getFloat64(0);{}", tail(p)), p)
+        }
+        3 => {
+            labels.push("via-DataView-setBigUint64-le");
+            (format!("D.setBigUint64(0, {p:#018x}n, true); var v{i} = D.getFloat64(0, true);{}", tail(p)), p)
+        }
+        4 => {
+            labels.push("via-Uint8Array-bytes");
+            let b: Vec<String> = p.to_le_bytes().iter().map(|x| format!("{x}")).collect();
+            (format!("Y.set([{}]); var v{i} = F[0];{}", b.join(", "), tail(p)), p)
+        }
+        5 | 6 => {
+            let q = f32_pattern(t);
+            let eff = f64::from(f32::from_bits(q)).to_bits();
+            if t.bool() {
+                labels.push("via-Float32Array");
+                (format!("W[0] = {q:#010x}; var v{i} = G[0];{}", tail(eff)), eff)
+            } else {
+                labels.push("via-DataView-getFloat32");
+                (format!("D.setUint32(0, {q:#010x}); var v{i} = D.getFloat32(0);{}", tail(eff)), eff)
+            }
+        }
+        7 => {
+            labels.push("via-fresh-buffer");
+            (format!("var v{i} = new Float64Array(new BigUint64Array([{p:#018x}n]).buffer)[0];{}", tail(p)), p)
+        }
+        8 => {
+            labels.push("via-unaligned-DataView");
+            (format!("D.setBigUint64(3, {p:#018x}n); var v{i} = D.getFloat64(3);{}", tail(p)), p)
+        }
+        _ => {
+            labels.push("via-typed-array-accessor");
+            let a = ACCESSORS[t.below(ACCESSORS.len())];
+            (format!("U[0] = {p:#018x}n; var v{i} = {a};{}", tail(p)), p)
+        }
+    }
+}
+
+const N_OBS: usize = 34;
+const OBS_AT: usize = 32;
+const OBS_SMALL_INT_TA: usize = 33;
+
+fn obs_line(k: usize, i: usize) -> String {
+    let v = format!("v{i}");
+    let body = match k {
+        0 => "'typeof', typeof V, typeof [V][0], typeof id(V), typeof (V + 0), typeof -V".to_string(),
+        1 => "'is', Object.is(V, V), V === V, V == V, V !== V, Number.isNaN(V), isNaN(V), V <= V".to_string(),
+        2 => "'bits', bits(V)".to_string(),
+        3 => "'arr', bits([V][0]), bits([0, V, 0].slice(1)[0]), bits([V].concat([1])[0]), bits(Array.of(V).pop())".to_string(),
+        4 => "'obj', bits(({ a: V }).a), bits(Object.assign({}, { a: V }).a), bits(Object.values({ a: V })[0])".to_string(),
+        5 => "'map', bits(new Map([[1, V]]).get(1)), bits(Array.from(new Set([V]))[0]), bits(new Map([[V, 1]]).keys().next().value)".to_string(),
+        6 => "'mapkey', new Map([[V, 'k']]).get(V), new Set([V]).has(V), [V].includes(V), [V].indexOf(V), [V].lastIndexOf(V)".to_string(),
+        7 => "'zero', new Map([[0, 'z']]).get(V), new Set([0]).has(V), new Map([[V, 'k']]).get(0), [0].includes(V), [0].indexOf(V), [NaN].includes(V), Object.is(V, 0), Object.is(V, -0), Object.is(V, NaN)".to_string(),
+        8 => "'fn', bits(id(V)), bits((function () { return arguments[0]; })(V)), bits((function (a, b) { return b; })(0, V)), bits((() => V)()), bits(id.call(null, V)), bits(id.apply(null, [V]))".to_string(),
+        9 => "'spread', bits([...[V]][0]), bits(Math.max(...[V])), bits(Math.min(V)), bits((function (...r) { return r[0]; })(V))".to_string(),
+        10 => "'destr', bits((function () { var [a] = [V]; return a; })()), bits((function () { var { a } = { a: V }; return a; })()), bits((function (a = 1) { return a; })(V))".to_string(),
+        11 => "'ident', bits(V + 0), bits(V - 0), bits(V * 1), bits(V / 1), bits(-V), bits(+V), bits(- -V)".to_string(),
+        12 => "'arith', bits(V + 1), bits(V - 1), bits(V * 2), bits(V / 2), bits(V - V), bits(V * 0), bits(V / V), bits(1 / V), bits(V % 2), bits(V * V)".to_string(),
+        13 => "'int', bits(V | 0), bits(V >>> 0), bits(~V), bits(V << 1), bits(V >> 1), bits(V ^ 0), bits(V & -1), bits(~~V)".to_string(),
+        14 => "'math', bits(Math.abs(V)), bits(Math.trunc(V)), bits(Math.sign(V)), bits(Math.fround(V)), bits(Math.floor(V)), bits(Math.ceil(V)), bits(Math.round(V)), bits(Math.sqrt(V * V))".to_string(),
+        15 => "'imul', bits(Math.imul(V, 1)), bits(Math.clz32(V)), bits(Math.imul(V, V))".to_string(),
+        16 => "'cmp', V < 0, V > 0, V == 0, V === 0, 1 / V < 0, Number.isFinite(V), Number.isInteger(V), Number.isSafeInteger(V), isFinite(V), V == null, V == false, V == ''".to_string(),
+        17 => "'bool', !V, !!V, V ? 1 : 0, bits(V || 7), bits(V && 7), bits(V ?? 7), Boolean(V)".to_string(),
+        18 => "'store', (OF[1] = V, V !== V ? 'NaN' : hx(OU[1])), (OD.setFloat64(0, V), V !== V ? 'NaN' : hx(OD.getBigUint64(0))), bits(new Float64Array(2).fill(V)[1]), bits(Float64Array.of(V)[0]), bits(Float64Array.from([V])[0])".to_string(),
+        19 => "'f32', (OG[2] = V, OG[2] !== OG[2] ? 'NaN' : hx(OW[2])), bits(Math.fround(V)), bits(new Float32Array([V])[0])".to_string(),
+        20 => "'ta-int', new Int32Array([V])[0], new Uint32Array([V])[0], (OW[3] = V, OW[3]), new Uint8ClampedArray([V])[0]".to_string(),
+        21 => "'bigint', tr(function () { return hx(BigInt(V)); })".to_string(),
+        22 => "'index', [10, 20, 30][V], 'abc'[V], 'abc'.charAt(V), 'abcdef'.slice(V).length, 'abcdef'.substring(V).length, [1, 2, 3].slice(V).length".to_string(),
+        23 => "'switch', (function () { switch (V) { case 0: return 'zero'; case 1: return 'one'; case V: return 'self'; default: return 'none'; } })()".to_string(),
+        24 => "'same', V === F[0], Object.is(V, F[0])".to_string(),
+        25 => "'json', JSON.stringify(V !== V || V === 1 / 0 || V === -1 / 0 ? V : 0), JSON.stringify([V]).length > 0".to_string(),
+        26 => "'copy', hx(new BigUint64Array(F.slice(0, 1).buffer)[0]), hx(new BigUint64Array(new Float64Array(F.subarray(0, 1)).buffer)[0]), (F.copyWithin(1, 0, 1), hx(U[1])), hx(new BigUint64Array(B.slice(0, 8))[0]), (function () { var t = new Float64Array(2); t.set(F.subarray(0, 1), 1); return hx(new BigUint64Array(t.buffer)[1]); })()".to_string(),
+        27 => "'scope', bits((function () { let a = V; const b = a; var c = b; return (function () { return c; })(); })()), bits(eval('V'))".to_string(),
+        28 => "'gen', bits((function* () { yield V; })().next().value), bits([V].map(id)[0]), bits([V].reduce(function (a, x) { return x; }, 0)), bits([0, V].sort(function () { return 0; })[1])".to_string(),
+        29 => "'cls', bits(new (class { constructor(a) { this.a = a; } })(V).a), bits(new (class { #p = V; get() { return this.#p; } })().get()), bits((class { static s = V; }).s)".to_string(),
+        30 => "'taidx', F[V] === undefined, tr(function () { return new Float64Array(3)[V] === undefined; })".to_string(),
+        31 => "'date', bits(new Date(V).getTime()), bits(new Date(V).valueOf())".to_string(),
+        OBS_AT => "'at', 'abc'.at(V), [10, 20, 30].at(V), new Float64Array([1.5, 2.5, 3.5]).at(V)".to_string(),
+        _ => "'ta-small-int', new Int8Array([V])[0], new Uint8Array([V])[0], new Int16Array([V])[0], new Uint16Array([V])[0]".to_string(),
+    };
+    format!("print({i}, {});", body.replace('V', &v))
+}
+
+fn cross_line(i: usize, j: usize) -> String {
+    let body = "'x', Object.is(P, Q), P === Q, P == Q, P < Q, P >= Q, new Map([[P, 'k']]).get(Q), new Set([P]).has(Q), [P].includes(Q), [P].indexOf(Q), bits(P + Q), bits(P - Q), bits(P * Q), bits(P / Q), bits(Math.min(P, Q)), bits(Math.max(P, Q)), bits(P % Q)";
+    format!("print({i}, {j}, {});", body.replace('P', &format!("v{i}")).replace('Q', &format!("v{j}")))
+}
+
+struct Script {
+    src: String,
+    labels: Vec<&'static str>,
+}
+
+fn gen_script(t: &mut Tape) -> Script {
+    let mut labels = vec![];
+    let mut src = String::from(SCRIPT_PRELUDE);
+    let n = 1 + t.below(5);
+    for i in 0..n {
+        let (line, eff) = manufacture(t, i, &mut labels);
+        let x = f64::from_bits(eff);
+        src.push_str(&line);
+        src.push('\n');
+        src.push_str(&obs_line(0, i));
+        src.push('\n');
+        src.push_str(&obs_line(2, i));
+        src.push('\n');
+        let nobs = 2 + t.below(6);
+        for _ in 0..nobs {
+            let k = t.below(N_OBS);
+            if k == OBS_SMALL_INT_TA && EXCLUDE_SMALL_INT_TA_CONVERSION {
+                labels.push("excluded-small-int-typed-array-conversion");
+                continue;
+            }
+            if k == OBS_AT && EXCLUDE_AT_BELOW_I64_MIN && x.is_finite() && x <= -9.2e18 {
+                labels.push("excluded-at-below-i64-min");
+                continue;
+            }
+            src.push_str(&obs_line(k, i));
+            src.push('\n');
+        }
+        if i > 0 && t.bool() {
+            src.push_str(&cross_line(t.below(i), i));
+            src.push('\n');
+        }
+    }
+    src.push_str("print('end', typeof v0);\n");
+    Script { src, labels }
+}
+
+/// the effective f64 patterns named in a program (`// p=0x...` comments)
+fn script_patterns(src: &str) -> Vec<u64> {
+    src.lines().filter_map(|l| l.rsplit_once("// p=").and_then(|(_, h)| parse_u64(h.trim()))).collect()
+}
+
+fn pattern_labels(ps: &[u64], labels: &mut Vec<&'static str>) {
+    for p in ps {
+        let c = class_of(*p);
+        if !labels.contains(&c) {
+            labels.push(c);
+        }
+    }
+}
+
+fn check_script(env: &mut Env, src: &str, mut labels: Vec<&'static str>) -> CaseOut {
+    let server = match env.node() {
+        Ok(n) => n,
+        Err(e) => return CaseOut::skip(src.to_string(), format!("oracle-unavailable: {e}")),
+    };
+    let (np, nc) = match node_script(server, src) {
+        Ok(x) => x,
+        Err(e) => return CaseOut::skip(src.to_string(), format!("oracle-error: {e}")),
+    };
+    if nc == "limit:timeout" {
+        return CaseOut::skip(src.to_string(), "v8-timeout");
+    }
+    let t = run(src, &RunCfg::default());
+    if t.completion.is_limit() {
+        return CaseOut::skip(src.to_string(), "boa-limit");
+    }
+    let ps = script_patterns(src);
+    pattern_labels(&ps, &mut labels);
+    labels.sort_unstable();
+    labels.dedup();
+    if t.prints != np {
+        let k = t.prints.iter().zip(np.iter()).position(|(a, b)| a != b).unwrap_or(t.prints.len().min(np.len()));
+        let (a, b) = (t.prints.get(k).cloned().unwrap_or_default(), np.get(k).cloned().unwrap_or_default());
+        let obs = |l: &str| l.split_whitespace().find(|w| w.chars().next().is_some_and(|c| c.is_ascii_alphabetic())).unwrap_or("?").to_string();
+        let name = if b.is_empty() { obs(&a) } else { obs(&b) };
+        let extra = if t.completion.is_internal_failure() { format!(" {}", t.completion.render()) } else { String::new() };
+        return CaseOut::fail(
+            src.to_string(),
+            format!("script: observation '{name}' differs from V8{extra}"),
+            format!("print line {k}:\n  boa: {a}\n  v8 : {b}\n--- boa\n{}\n--- v8\n{}\n=> {nc}", t.render(), np.join("\n")),
+        )
+        .with_labels(labels);
+    }
+    let bc = t.completion.render();
+    if bc != nc {
+        return CaseOut::fail(src.to_string(), format!("script: completion boa={bc} v8={nc}"), format!("boa: {bc}\nv8: {nc}\n{}", t.render())).with_labels(labels);
+    }
+    let nontrivial = ps.iter().any(|p| nontrivial_bits(*p)) && np.len() >= 3;
+    CaseOut::pass(src.to_string(), nontrivial).with_labels(labels)
+}
+
+// ---------------------------------------------------------------------------------------------------------------
+// binary16 through Float16Array / DataView.getFloat16 against a model
+
+fn f16_to_f64(p: u16) -> f64 {
+    let s = if p & 0x8000 != 0 { -1.0 } else { 1.0 };
+    let e = i32::from((p >> 10) & 0x1F);
+    let m = f64::from(p & 0x3FF);
+    if e == 0 {
+        s * m * 2f64.powi(-24)
+    } else if e == 31 {
+        if m == 0.0 { s * f64::INFINITY } else { f64::NAN }
+    } else {
+        s * (1.0 + m / 1024.0) * 2f64.powi(e - 15)
+    }
+}
+
+fn js_bits(x: f64) -> String {
+    if x.is_nan() { "NaN".into() } else { format!("{:x}", x.to_bits()) }
+}
+
+fn f16_program(lo: u32, hi: u32) -> String {
+    format!(
+        "var B = new ArrayBuffer(8), H = new Uint16Array(B), X = new Float16Array(B), D = new DataView(B);\nvar OB = new ArrayBuffer(8), OF = new Float64Array(OB), OU = new BigUint64Array(OB);\nfunction bits(x) {{ if (typeof x !== 'number') return 'T=' + typeof x; if (x !== x) return 'NaN'; OF[0] = x; return OU[0].toString(16); }}\nfor (var p = {lo}; p < {hi}; p++) {{\n  H[0] = p; var v = X[0];\n  print(p, bits(v), typeof v, Object.is(v, v), (X[1] = v, v !== v ? 'NaN' : H[1].toString(16)), bits(D.getFloat16(0, true)), bits([v][0]), bits(-v));\n}}\n"
+    )
+}
+
+fn check_f16_block(lo: u32, hi: u32) -> CaseOut {
+    let rendered = format!("f16-block lo={lo} hi={hi}");
+    if lo >= hi || hi > 65536 || hi - lo > 4096 {
+        return CaseOut::skip(rendered, "bad f16 block");
+    }
+    let src = f16_program(lo, hi);
+    let t = run(&src, &RunCfg::default());
+    let mut nontrivial = false;
+    let mut labels = vec![];
+    let mut want = vec![];
+    for p in lo..hi {
+        let x = f16_to_f64(p as u16);
+        if x.is_nan() {
+            nontrivial |= p as u16 != 0x7E00;
+            labels.push("f16-nan");
+        } else if x.is_infinite() {
+            labels.push("f16-infinity");
+        } else if (p >> 10) & 0x1F == 0 {
+            labels.push("f16-subnormal-or-zero");
+        } else {
+            labels.push("f16-normal");
+        }
+        let back = if x.is_nan() { "NaN".to_string() } else { format!("{p:x}") };
+        want.push(format!("{p} {b} number true {back} {b} {b} {}", js_bits(-x), b = js_bits(x)));
+    }
+    labels.sort_unstable();
+    labels.dedup();
+    if t.prints != want || t.completion.render() != "value:undefined" {
+        let k = t.prints.iter().zip(want.iter()).position(|(a, b)| a != b).unwrap_or(t.prints.len().min(want.len()));
+        return CaseOut::fail(
+            rendered,
+            format!("f16: pattern read through Float16Array differs from the binary16 model ({})", t.completion.render().split(':').next().unwrap_or("")),
+            format!("line {k}: boa {:?} model {:?}\ncompletion {}\nprogram:\n{src}", t.prints.get(k), want.get(k), t.completion.render()),
+        )
+        .with_labels(labels);
+    }
+    CaseOut::pass(rendered, nontrivial).with_labels(labels)
+}
+
+// ---------------------------------------------------------------------------------------------------------------
+// two builds
+
+const ITEM_SEP: &str = "\n//---8<--- next two-build item\n";
+
+/// Evaluate one item (an API line or a JS program) in THIS build; the output must not depend on the value
+/// representation.
+fn eval_item(item: &str) -> String {
+    if is_api_line(item) {
+        match run_api_line(item) {
+            Ok(ok) => format!("ok values={} digest={:016x}", ok.values, ok.digest),
+            Err(f) => format!("FAIL {} :: {} :: {}", f.sig, f.rendered, f.detail),
+        }
+    } else {
+        run(item, &RunCfg::default()).render()
+    }
+}
+
+fn harness_dir() -> String {
+    let m = env!("CARGO_MANIFEST_DIR");
+    if std::path::Path::new(m).join("Cargo.toml").exists() { m.to_string() } else { format!("{}/harness", verif_root()) }
+}
+
+fn enum_bin_path() -> PathBuf {
+    PathBuf::from(format!("{}/harness/target-enum/debug/bv", verif_root()))
+}
+
+fn newest_mtime(dir: &std::path::Path, best: &mut Option<std::time::SystemTime>) {
+    let Ok(rd) = std::fs::read_dir(dir) else { return };
+    for e in rd.flatten() {
+        let p = e.path();
+        if p.is_dir() {
+            if p.file_name().is_some_and(|n| n == "target" || n == ".git") {
+                continue;
+            }
+            newest_mtime(&p, best);
+        } else if p.extension().is_some_and(|x| x == "rs" || x == "toml") {
+            if let Ok(m) = e.metadata().and_then(|m| m.modified()) {
+                if best.is_none_or(|b| m > b) {
+                    *best = Some(m);
+                }
+            }
+        }
+    }
+}
+
+/// An existing second binary that is not older than the harness sources and the engine sources.
+fn locate_enum_bin() -> Result<PathBuf, String> {
+    let p = enum_bin_path();
+    let m = std::fs::metadata(&p).and_then(|m| m.modified()).map_err(|_| format!("second build absent ({})", p.display()))?;
+    let mut newest = None;
+    newest_mtime(&std::path::Path::new(&harness_dir()).join("src"), &mut newest);
+    newest_mtime(std::path::Path::new("/repo/core"), &mut newest);
+    if let Ok(c) = std::fs::metadata(format!("{}/Cargo.toml", harness_dir())).and_then(|m| m.modified()) {
+        if newest.is_none_or(|b| c > b) {
+            newest = Some(c);
+        }
+    }
+    if newest.is_some_and(|n| n > m) {
+        return Err("second build is older than the sources (stale)".into());
+    }
+    Ok(p)
+}
+
+fn build_enum_bin() -> Result<PathBuf, String> {
+    let dir = harness_dir();
+    eprintln!("C12: building the jsvalue-enum binary (cargo build --features jsvalue-enum in {dir}, target-enum) ...");
+    let out = std::process::Command::new("cargo")
+        .args(["build", "--offline", "--features", "jsvalue-enum"])
+        .current_dir(&dir)
+        .env("CARGO_TARGET_DIR", format!("{}/harness/target-enum", verif_root()))
+        .env("CARGO_NET_OFFLINE", "true")
+        .output()
+        .map_err(|e| format!("cannot run cargo: {e}"))?;
+    if !out.status.success() {
+        let err = String::from_utf8_lossy(&out.stderr);
+        let first = err.lines().find(|l| l.starts_with("error")).unwrap_or("unknown error").to_string();
+        return Err(format!("cargo build --features jsvalue-enum failed: {first}"));
+    }
+    let p = enum_bin_path();
+    if p.exists() { Ok(p) } else { Err("cargo succeeded but the binary is missing".into()) }
+}
+
+/// Called in the parent `check` process (from `streams`): decide once, tell the workers through the environment.
+fn prepare_enum_bin(tier: Tier) {
+    static ONCE: OnceLock<()> = OnceLock::new();
+    ONCE.get_or_init(|| {
+        if cfg!(feature = "jsvalue-enum") || std::env::var_os("BV_C12_ENUM").is_some() {
+            return;
+        }
+        let r = if tier == Tier::Thorough && std::env::var_os("BV_C12_NO_BUILD").is_none() { build_enum_bin() } else { locate_enum_bin() };
+        let val = match r {
+            Ok(p) => p.to_string_lossy().to_string(),
+            Err(e) => {
+                eprintln!("C12: two-build comparison unavailable: {e} (its cases are skipped)");
+                format!("unavailable:{e}")
+            }
+        };
+        // SAFETY: the worker threads/processes are not started yet; nothing else reads the environment concurrently.
+        unsafe { std::env::set_var("BV_C12_ENUM", val) };
+    });
+}
+
+fn enum_bin() -> &'static Result<PathBuf, String> {
+    static BIN: OnceLock<Result<PathBuf, String>> = OnceLock::new();
+    BIN.get_or_init(|| {
+        if cfg!(feature = "jsvalue-enum") {
+            return Err("this binary is itself the jsvalue-enum build".into());
+        }
+        match std::env::var("BV_C12_ENUM") {
+            Ok(v) => match v.strip_prefix("unavailable:") {
+                Some(why) => Err(why.to_string()),
+                None => Ok(PathBuf::from(v)),
+            },
+            Err(_) => locate_enum_bin(),
+        }
+    })
+}
+
+enum OtherErr {
+    Timeout,
+    Crash(String),
+    Infra(String),
+}
+
+/// Evaluate items in the other build: `<bin> replay C12 <file>` with the hidden stream `emit`.
+fn other_eval(bin: &std::path::Path, items: &[String]) -> Result<Vec<String>, OtherErr> {
+    use std::sync::atomic::{AtomicU64, Ordering};
+    static N: AtomicU64 = AtomicU64::new(0);
+    let n = N.fetch_add(1, Ordering::Relaxed);
+    let base = std::env::temp_dir().join(format!("bv-c12-{}-{n}", std::process::id()));
+    let (req, out) = (base.with_extension("req.json"), base.with_extension("out.json"));
+    let body = serde_json::json!({"property": "C12", "stream": "emit", "tier": "quick", "seed": 1, "index": 0, "tape": "",
+        "rendered": serde_json::to_string(items).unwrap_or_default()});
+    std::fs::write(&req, body.to_string()).map_err(|e| OtherErr::Infra(format!("write request: {e}")))?;
+    let _ = std::fs::remove_file(&out);
+    let cleanup = || {
+        let _ = std::fs::remove_file(&req);
+        let _ = std::fs::remove_file(&out);
+    };
+    let child = std::process::Command::new(bin)
+        .args(["replay", "C12"])
+        .arg(&req)
+        .env("BV_C12_EMIT", &out)
+        .stdin(std::process::Stdio::null())
+        .stdout(std::process::Stdio::null())
+        .stderr(std::process::Stdio::null())
+        .spawn();
+    let mut child = match child {
+        Ok(c) => c,
+        Err(e) => {
+            cleanup();
+            return Err(OtherErr::Infra(format!("spawn {}: {e}", bin.display())));
+        }
+    };
+    let t0 = std::time::Instant::now();
+    let status = loop {
+        match child.try_wait() {
+            Ok(Some(s)) => break s,
+            Ok(None) => {
+                if t0.elapsed().as_secs() >= 12 {
+                    let _ = child.kill();
+                    let _ = child.wait();
+                    cleanup();
+                    return Err(OtherErr::Timeout);
+                }
+                std::thread::sleep(std::time::Duration::from_millis(2));
+            }
+            Err(e) => {
+                cleanup();
+                return Err(OtherErr::Infra(format!("wait: {e}")));
+            }
+        }
+    };
+    let text = std::fs::read_to_string(&out);
+    cleanup();
+    if !status.success() {
+        use std::os::unix::process::ExitStatusExt;
+        return Err(OtherErr::Crash(status.signal().map_or_else(|| format!("exit {:?}", status.code()), |s| format!("signal {s}"))));
+    }
+    let text = text.map_err(|e| OtherErr::Infra(format!("no output file: {e}")))?;
+    let v: Vec<String> = serde_json::from_str(&text).map_err(|e| OtherErr::Infra(format!("bad output: {e}")))?;
+    if v.len() != items.len() {
+        return Err(OtherErr::Infra(format!("{} outputs for {} items", v.len(), items.len())));
+    }
+    Ok(v)
+}
+
+/// The hidden stream: evaluate items and write the outputs where BV_C12_EMIT says.
+fn emit(rendered: &str) -> CaseOut {
+    let Some(path) = std::env::var_os("BV_C12_EMIT") else { return CaseOut::skip(String::new(), "emit without BV_C12_EMIT") };
+    let items: Vec<String> = serde_json::from_str(rendered).unwrap_or_default();
+    let outs: Vec<String> = items.iter().map(|i| eval_item(i)).collect();
+    match std::fs::write(path, serde_json::to_string(&outs).unwrap_or_default()) {
+        Ok(()) => CaseOut::pass(String::new(), false),
+        Err(e) => CaseOut::skip(String::new(), format!("emit: cannot write: {e}")),
+    }
+}
+
+fn item_kind(item: &str) -> &'static str {
+    if is_api_line(item) {
+        if item.starts_with("heap") { "heap" } else { "api" }
+    } else if item.starts_with(SCRIPT_PRELUDE) {
+        "bit-pattern script"
+    } else {
+        "program"
+    }
+}
+
+fn compare_builds(items: &[String], mut labels: Vec<&'static str>) -> CaseOut {
+    let rendered = items.join(ITEM_SEP);
+    let bin = match enum_bin() {
+        Ok(b) => b.clone(),
+        Err(why) => {
+            labels.push("two-build-skipped-second-build-unavailable");
+            return CaseOut::skip(rendered, format!("two-build: second build unavailable: {why}")).with_labels(labels);
+        }
+    };
+    let mine: Vec<String> = items.iter().map(|i| eval_item(i)).collect();
+    let theirs = match other_eval(&bin, items) {
+        Ok(v) => v,
+        Err(OtherErr::Infra(e)) => return CaseOut::skip(rendered, format!("two-build: infrastructure: {}", e.chars().take(80).collect::<String>())).with_labels(labels),
+        Err(_) => {
+            // attribute a crash / hang to a single item
+            let mut v = vec![];
+            for it in items {
+                v.push(match other_eval(&bin, std::slice::from_ref(it)) {
+                    Ok(mut o) => o.pop().unwrap_or_default(),
+                    Err(OtherErr::Crash(s)) => format!("ABORT of the jsvalue-enum process ({s})"),
+                    Err(OtherErr::Timeout) => "TIMEOUT".to_string(),
+                    Err(OtherErr::Infra(e)) => return CaseOut::skip(rendered, format!("two-build: infrastructure: {}", e.chars().take(80).collect::<String>())).with_labels(labels),
+                });
+            }
+            v
+        }
+    };
+    labels.push("two-build-compared");
+    for ((item, a), b) in items.iter().zip(&mine).zip(&theirs) {
+        if b == "TIMEOUT" {
+            labels.push("two-build-timeout");
+            return CaseOut::skip(rendered, "two-build: the jsvalue-enum process timed out").with_labels(labels);
+        }
+        let kind = item_kind(item);
+        if a.starts_with("FAIL ") || b.starts_with("FAIL ") {
+            let which = if a.starts_with("FAIL ") { "nan-boxed" } else { "jsvalue-enum" };
+            let f = if a.starts_with("FAIL ") { a } else { b };
+            let sig = f.trim_start_matches("FAIL ").split(" :: ").next().unwrap_or("").to_string();
+            return CaseOut::fail(item.clone(), format!("two-build ({which} build): {sig}"), format!("--- nan-boxed\n{a}\n--- jsvalue-enum\n{b}")).with_labels(labels);
+        }
+        if a != b {
+            let what = if kind == "api" || kind == "heap" {
+                "observations differ".to_string()
+            } else {
+                let (la, lb): (Vec<&str>, Vec<&str>) = (a.lines().collect(), b.lines().collect());
+                let k = la.iter().zip(lb.iter()).position(|(x, y)| x != y).unwrap_or(la.len().min(lb.len()));
+                let l = lb.get(k).or(la.get(k)).copied().unwrap_or("");
+                if l.starts_with("=> ") { "completion differs".to_string() } else { "prints differ".to_string() }
+            };
+            return CaseOut::fail(item.clone(), format!("two-build: {kind}: {what} between nan-boxed and jsvalue-enum"), format!("--- nan-boxed\n{a}\n--- jsvalue-enum\n{b}")).with_labels(labels);
+        }
+    }
+    let nontrivial = items.iter().any(|i| script_patterns(i).iter().any(|p| nontrivial_bits(*p)) || i.starts_with("nan-space") || i.contains("exp=0x7ff"));
+    CaseOut::pass(rendered, nontrivial).with_labels(labels)
+}
+
+fn two_build_items(tier: Tier, index: u64, tape: &[u8], labels: &mut Vec<&'static str>) -> Vec<String> {
+    let mut items = vec![];
+    // API items: thorough covers the whole structured enumeration (case index = block), quick a spread sample
+    // that includes both exponent-all-ones blocks
+    let (sidx, nidx, iidx) = if tier == Tier::Thorough {
+        (index % N_STRUCT_CASES, index % 65, index % 4096)
+    } else {
+        ((index * 32 + 31) % N_STRUCT_BLOCKS, index % 65, (index * 29) % 4096)
+    };
+    items.push(struct_line(sidx));
+    if tier == Tier::Quick {
+        items.push(struct_line(N_STRUCT_BLOCKS + (index * 13) % (1 + 16 * NAN_GROUPS)));
+    }
+    // every 2^8-th int32, 4096 chunks of 4096 values
+    items.push(format!("i32-range start={} step=256 count=4096 mode=full", i64::from(i32::MIN) + (iidx as i64) * 256 * 4096));
+    items.push(i32_near_line(nidx));
+    labels.push("two-build-api-blocks");
+    let cut = tape.len().min(400);
+    let mut t = Tape::new(&tape[..cut]);
+    items.push(gen_heap_line(&mut t).split_whitespace().take(120).collect::<Vec<_>>().join(" "));
+    labels.push("two-build-heap");
+    for _ in 0..2 {
+        let s = gen_script(&mut t);
+        items.push(s.src);
+    }
+    labels.push("two-build-bit-pattern-scripts");
+    let rest = &tape[cut..];
+    let half = rest.len() / 2;
+    let p1 = generate(&rest[..half], Opts::core());
+    let p2 = generate(&rest[half..], Opts::lit());
+    items.push(p1.src);
+    items.push(p2.src);
+    labels.push("two-build-core-and-lit-programs");
+    items
+}
+
+// ---------------------------------------------------------------------------------------------------------------
+
+const RANDOM_PATTERNS_PER_CASE: usize = 32;
 
 impl Prop for C12 {
     fn id(&self) -> &'static str {
         "C12"
     }
-    fn streams(&self, _tier: Tier) -> Vec<Stream> {
-        vec![]
+
+    fn streams(&self, tier: Tier) -> Vec<Stream> {
+        // the parent `check` process decides about the second build before the workers start
+        if std::env::args().nth(1).as_deref() == Some("check") {
+            prepare_enum_bin(tier);
+        }
+        let q = tier == Tier::Quick;
+        let i32s = if q { Stream::new("i32", 1024, 8).batch(16) } else { Stream::new("i32", 65536, 8).batch(128).exhaustive() };
+        vec![
+            i32s,
+            Stream::new("i32-near", i32_centers().len() as u64, 8).batch(2).exhaustive(),
+            Stream::new("f64-structured", N_STRUCT_CASES, 8).batch(64).exhaustive(),
+            Stream::new("f64-random", if q { 4000 } else { 200_000 }, 400).batch(200),
+            Stream::new("heap", if q { 320 } else { 9600 }, 2400).batch(8),
+            Stream::new("script", if q { 2400 } else { 96_000 }, 400).batch(40),
+            Stream::new("script-f16", 256, 8).batch(4).exhaustive(),
+            Stream::new("two-build", if q { 160 } else { N_STRUCT_CASES }, 1800).batch(4),
+        ]
     }
+
     fn rule(&self) -> String {
-        "stub".into()
+        "Rust-API streams: v = JsValue::new(x) (and every other constructor: rational, From<JsVariant>, From<Numeric>, f32/i16/i64/isize/u32/u64 where exact) must satisfy exactly one is_* predicate, the expected one, consistently with variant()/get_type()/type_of()/as_*; variant()/as_number()/as_i32() return x (doubles by bits; every NaN reads back as a NaN number; an integral double may come back as the equal int32; -0 keeps its sign; as_i32 follows the model), clone/drop/mem::take/JsVariant round trip keep it, clone equals original (same_value, strict_equals, ==, Hash). i32: quick every 2^8-th value (1024 chunks) + i32-near = +-1024 around 0, MIN, MAX, +-2^k; thorough all 2^32 (65536 chunks of 65536, lean check). f64-structured (exhaustive in both tiers): sign x 2048 exponents x 16 tag-nibble values x 64 boundary mantissas, a boundary-value block, 16 top-16 patterns 7FF8..7FFF/FFF8..FFFF x 64 groups x 64 pointer-like low words. f64-random: 32 tape-chosen patterns per case (uniform, NaN/tag space, exponent-structured, integer boundaries, specials). heap: 48..720 strings (heap/UTF-16/static), symbols, bigints, objects/arrays/functions kept alive together; identity through as_*/variant (string refcounts must show the same allocation and balance), booleans/null/undefined, doubles crafted from the live tagged pointer bits must read back as NaN numbers and leave the heap value intact, values survive inside an engine Array/Map across force_collect. script: 1..5 patterns per program manufactured through BigUint64Array/Uint32Array/Uint8Array/DataView (both endiannesses, unaligned)/Float32Array/typed-array accessors, observed by 32 observation kinds (typeof, Object.is, containers, keyed collections, calls, arithmetic, int conversions, Math, typed-array stores with bits printed back through a second buffer, byte-copy paths whose bits must be exact); the print trace must equal V8's, NaN results are printed only as 'NaN'. script-f16: all 65536 binary16 patterns through Float16Array/DataView.getFloat16 against an exact Rust model. two-build: API blocks, heap op lists, bit-pattern scripts and genp::prog core/lit programs evaluated by this build and by the --features jsvalue-enum build; outputs must be identical. NON-TRIVIAL = the case contains an f64 pattern that is a NaN other than 7FF8000000000000 (includes every pattern with tag nibble != 0 in the quiet-NaN space), or is within 2 of -2^31, 2^31-1 or +-2^53 (i32 chunks: contain a value within 2 of MIN/MAX; heap: at least one NaN was crafted from a live tagged pointer; two-build: the comparison ran and the items contain such a pattern). distinct = distinct rendered input (bit pattern list / block descriptor / JS source).".into()
     }
-    fn run_case(&self, _env: &mut Env, _stream: &str, _index: u64, _tape: &[u8]) -> CaseOut {
-        CaseOut::skip(String::new(), "stub")
+
+    fn assumptions(&self) -> Vec<String> {
+        vec![
+            "V8 (node 20) is the reference for the JS-level observations; NaN payload bits after passing through a JS value are implementation-defined and are never compared".into(),
+            "two-build: the second binary is target-enum/debug/bv built from the same source tree (thorough builds it; quick uses it only if present and not older than the sources)".into(),
+            "little-endian host (the // p= comments name the pattern under that assumption; the comparison itself does not depend on it)".into(),
+        ]
+    }
+
+    fn rendered_prefix_lines(&self, rendered: &str) -> usize {
+        if rendered.starts_with(SCRIPT_PRELUDE) {
+            SCRIPT_PRELUDE.lines().count()
+        } else if rendered.contains(crate::genp::prog::PRELUDE) {
+            crate::genp::prog::PRELUDE.lines().count() + usize::from(rendered.starts_with("'use strict'"))
+        } else {
+            0
+        }
+    }
+
+    fn run_case(&self, env: &mut Env, stream: &str, index: u64, tape: &[u8]) -> CaseOut {
+        match stream {
+            "i32" => run_api_lines(&i32_line(env.tier, index), vec![]),
+            "i32-near" => run_api_lines(&i32_near_line(index), vec!["i32-neighbourhood"]),
+            "f64-structured" => run_api_lines(&struct_line(index), vec![]),
+            "f64-random" => {
+                let mut t = Tape::new(tape);
+                let mut labels = vec![];
+                let mut text = String::new();
+                for _ in 0..RANDOM_PATTERNS_PER_CASE {
+                    let (b, class) = gen_pattern(&mut t);
+                    if !labels.contains(&class) {
+                        labels.push(class);
+                    }
+                    text.push_str(&format!("f64 {b:#018x}\n"));
+                    if t.exhausted() {
+                        break;
+                    }
+                }
+                run_api_lines(&text, labels)
+            }
+            "heap" => {
+                let mut t = Tape::new(tape);
+                run_api_lines(&gen_heap_line(&mut t), vec![])
+            }
+            "script" => {
+                let mut t = Tape::new(tape);
+                let s = gen_script(&mut t);
+                check_script(env, &s.src, s.labels)
+            }
+            "script-f16" => check_f16_block(index as u32 * 256, index as u32 * 256 + 256),
+            "two-build" => {
+                if let Err(why) = enum_bin() {
+                    return CaseOut::skip(format!("two-build case {index}"), format!("two-build: second build unavailable: {why}")).with_labels(vec!["two-build-skipped-second-build-unavailable"]);
+                }
+                let mut labels = vec![];
+                let items = two_build_items(env.tier, index, tape, &mut labels);
+                compare_builds(&items, labels)
+            }
+            _ => CaseOut::skip(String::new(), "unknown stream"),
+        }
+    }
+
+    fn run_rendered(&self, env: &mut Env, stream: &str, rendered: &str) -> Option<CaseOut> {
+        if rendered.trim().is_empty() {
+            return Some(CaseOut::skip(String::new(), "empty rendered input"));
+        }
+        Some(match stream {
+            "emit" => emit(rendered),
+            "script" => check_script(env, rendered, vec![]),
+            "script-f16" => {
+                let lo = kv(rendered, "lo").and_then(|s| s.parse().ok()).unwrap_or(0);
+                let hi = kv(rendered, "hi").and_then(|s| s.parse().ok()).unwrap_or(0);
+                check_f16_block(lo, hi)
+            }
+            "two-build" => {
+                let items: Vec<String> = rendered.split(ITEM_SEP).map(str::to_string).collect();
+                compare_builds(&items, vec![])
+            }
+            _ => {
+                // the Rust-API streams: API lines; a JS program is checked against V8
+                if rendered.lines().filter(|l| !l.trim().is_empty()).all(is_api_line) {
+                    run_api_lines(rendered, vec![])
+                } else {
+                    check_script(env, rendered, vec![])
+                }
+            }
+        })
     }
 }
